@@ -39,8 +39,8 @@ def broadcast_names(text):
     return re.findall(r'broadcast\s+(?:axiom|proof)\s+fn\s+([A-Za-z0-9_]+)', text)
 
 
-def run_verus(path, rlimit=None, seed=None, threads=4, extra=()):
-    cmd = ['verus', path, '--output-json', '--error-format=json', '--time-expanded', '--multiple-errors', '50',
+def run_verus(path, rlimit=None, seed=None, threads=4, extra=(), multiple_errors=50):
+    cmd = ['verus', path, '--output-json', '--error-format=json', '--time-expanded', '--multiple-errors', str(multiple_errors),
            '--num-threads', str(threads), '--no-report-long-running']
     if rlimit:
         cmd += ['--rlimit', str(rlimit)]
@@ -73,45 +73,8 @@ def run_verus(path, rlimit=None, seed=None, threads=4, extra=()):
     return p.returncode, js, diags, other, wall, ' '.join(cmd)
 
 
-def run_unit(unit_path, repo=None, rlimit=None, seed=None, threads=4, twins=False):
-    name = os.path.basename(unit_path)[:-len('.vspec')]
-    res = UnitResult(name)
-    g0 = gen.build(unit_path, repo)
-    names = broadcast_names(g0.text)
-    probe = PROBE % (('broadcast use %s;' % ', '.join(names)) if names else '')
-    g = gen.build(unit_path, repo, extra_tail=probe)
-    res.gen = g
-    os.makedirs(BUILD, exist_ok=True)
-    out_path = os.path.join(BUILD, name + '.rs')
-    with open(out_path, 'w', encoding='utf-8') as f:
-        f.write(g.text)
-    rc, js, diags, other, wall, cmd = run_verus(out_path, rlimit=rlimit, seed=seed, threads=threads)
-    res.wall = wall
-    res.cmd = cmd
-    vr = js.get('verification-results', {})
-    res.verus_summary = vr
-    errors = [d for d in diags if d.get('level') == 'error']
-    if not vr or vr.get('encountered-vir-error') or (not vr.get('success') and vr.get('errors', 0) == 0 and vr.get('verified', 0) == 0):
-        msgs = [d.get('rendered') or d.get('message', '') for d in errors][:6]
-        raise Undecided('verus front-end error in unit %s:\n%s\n%s' % (name, '\n'.join(msgs), '\n'.join(other[:10])))
-    # obligations: labelled clauses + one implicit obligation per exec/proof function with a body under contract
-    for label, c in g.clauses.items():
-        res.obligations[label] = {'kind': c['kind'], 'tags': c['tags'], 'fn': c['fn'], 'text': c['expr'], 'unit': name}
-    for f in g.functions:
-        if f['kind'] == 'fn' and f.get('has_body') and not f.get('external_body') and not f.get('included_from'):
-            res.obligations['implicit:' + f['name']] = {'kind': 'implicit', 'tags': sorted(set(['C13'] + f['props'])), 'fn': f['name'],
-                                                         'text': 'panic-freedom of %s: overflow, bounds, char boundaries, unwrap/expect, callee preconditions, termination' % f['name'],
-                                                         'unit': name}
-    # raw lemmas count as obligations of the unit (tags from a `// @@tags:` comment are not needed; attributed to all props of unit)
-    # timing
-    try:
-        for m in js['times-ms']['smt']['smt-run-module-times']:
-            for fb in m.get('function-breakdown', []):
-                res.fn_times[fb['function']] = res.fn_times.get(fb['function'], 0) + fb.get('time-micros', 0)
-                res.fn_success[fb['function']] = fb.get('success', True) and res.fn_success.get(fb['function'], True)
-    except Exception:
-        pass
-    # attribute errors
+def attribute(res, g, errors):
+    """attribute Verus error diagnostics of the file generated as `g` to obligations of `res`"""
     for d in errors:
         msg = d.get('message', '')
         if msg.startswith('aborting due to'):
@@ -143,23 +106,96 @@ def run_unit(unit_path, repo=None, rlimit=None, seed=None, threads=4, twins=Fals
         if 'vacuity.probe' in labels or prim_fn == 'raw::vacuity_probe':
             res.probe_failed = True
             continue
-        ids = []
-        # prefer clause labels that belong to the failing function itself or to closures/hints inside it;
-        # a failed callee precondition is an implicit obligation of the caller
         own = [l for l in labels if l in g.clauses and g.clauses[l]['fn'] == prim_fn]
-        if own and 'precondition' not in msg:
+        if own:
             ids = own
-        elif own and 'precondition' in msg:
-            ids = own
+        elif prim_fn and ('implicit:' + prim_fn) in res.obligations:
+            ids = ['implicit:' + prim_fn]
+        elif prim_fn and g.clauses and any(c['fn'] == prim_fn for c in g.clauses.values()):
+            # an implicit failure inside a strict twin counts against its single clause
+            ids = [l for l, c in g.clauses.items() if c['fn'] == prim_fn]
+        elif prim_fn:
+            ids = ['raw:' + prim_fn]
         else:
-            if prim_fn and ('implicit:' + prim_fn) in res.obligations:
-                ids = ['implicit:' + prim_fn]
-            elif prim_fn:
-                ids = ['raw:' + prim_fn]
-            else:
-                ids = ['unattributed']
+            ids = ['unattributed']
         for i in ids:
             res.failed.setdefault(i, []).append(entry)
+
+
+def fn_times(res, js):
+    try:
+        for m in js['times-ms']['smt']['smt-run-module-times']:
+            for fb in m.get('function-breakdown', []):
+                res.fn_times[fb['function']] = res.fn_times.get(fb['function'], 0) + fb.get('time-micros', 0)
+                res.fn_success[fb['function']] = fb.get('success', True) and res.fn_success.get(fb['function'], True)
+    except Exception:
+        pass
+
+
+def run_unit(unit_path, repo=None, rlimit=None, seed=None, threads=4, twins=True):
+    name = os.path.basename(unit_path)[:-len('.vspec')]
+    res = UnitResult(name)
+    g0 = gen.build(unit_path, repo)
+    names = broadcast_names(g0.text)
+    probe = PROBE % (('broadcast use %s;' % ', '.join(names)) if names else '')
+    g = gen.build(unit_path, repo, extra_tail=probe)
+    res.gen = g
+    os.makedirs(BUILD, exist_ok=True)
+    out_path = os.path.join(BUILD, name + '.rs')
+    with open(out_path, 'w', encoding='utf-8') as f:
+        f.write(g.text)
+    # strict twins (clauses listed / expected as findings) go to a second file, run concurrently with low effort per clause
+    gt = None
+    twin_future = None
+    if twins and g.has_strict:
+        gt = gen.build(unit_path, repo, twins_only=True)
+        tpath = os.path.join(BUILD, name + '__strict.rs')
+        with open(tpath, 'w', encoding='utf-8') as f:
+            f.write(gt.text)
+        import concurrent.futures as cf
+        ex = cf.ThreadPoolExecutor(max_workers=1)
+        twin_future = ex.submit(run_verus, tpath, 3, seed, max(2, threads // 2), (), 0)
+    rc, js, diags, other, wall, cmd = run_verus(out_path, rlimit=rlimit, seed=seed, threads=threads)
+    res.wall = wall
+    res.cmd = cmd
+    vr = js.get('verification-results', {})
+    res.verus_summary = vr
+    errors = [d for d in diags if d.get('level') == 'error']
+    if not vr or vr.get('encountered-vir-error') or (not vr.get('success') and vr.get('errors', 0) == 0 and vr.get('verified', 0) == 0):
+        msgs = [d.get('rendered') or d.get('message', '') for d in errors][:6]
+        raise Undecided('verus front-end error in unit %s:\n%s\n%s' % (name, '\n'.join(msgs), '\n'.join(other[:10])))
+    # obligations: labelled clauses + one implicit obligation per exec/proof function with a body under contract
+    for label, c in g.clauses.items():
+        res.obligations[label] = {'kind': c['kind'], 'tags': c['tags'], 'fn': c['fn'], 'text': c['expr'], 'unit': name}
+    for f in g.functions:
+        if f['kind'] == 'fn' and f.get('has_body') and not f.get('external_body') and not f.get('included_from'):
+            res.obligations['implicit:' + f['name']] = {'kind': 'implicit', 'tags': sorted(set(['C13'] + f['props'])), 'fn': f['name'],
+                                                         'text': 'panic-freedom of %s: overflow, bounds, char boundaries, unwrap/expect, callee preconditions, termination' % f['name'],
+                                                         'unit': name}
+    fn_times(res, js)
+    attribute(res, g, errors)
+    if twin_future is not None:
+        rc2, js2, diags2, other2, wall2, cmd2 = twin_future.result()
+        vr2 = js2.get('verification-results', {})
+        errors2 = [d for d in diags2 if d.get('level') == 'error']
+        if not vr2 or vr2.get('encountered-vir-error') or (not vr2.get('success') and vr2.get('errors', 0) == 0 and vr2.get('verified', 0) == 0):
+            msgs = [d.get('rendered') or d.get('message', '') for d in errors2][:6]
+            raise Undecided('verus front-end error in strict twins of unit %s:\n%s' % (name, '\n'.join(msgs)))
+        for label, c in gt.clauses.items():
+            res.obligations[label] = {'kind': c['kind'], 'tags': c['tags'], 'fn': c['fn'], 'text': c['expr'], 'unit': name}
+        res.probe_failed_main = res.probe_failed
+        attribute(res, gt, errors2)
+        fn_times(res, js2)
+        res.cmd += ' ; ' + cmd2
+        res.wall = max(wall, wall2)
+        for t in gt.trusted:
+            if t not in g.trusted:
+                g.trusted.append(t)
+    # a resource-limit hit decides nothing about any obligation of that function: none of them counts as discharged
+    for h in res.rlimit_hits:
+        for oid, ob in res.obligations.items():
+            if ob['fn'] == h['fn'] and oid not in res.failed:
+                res.failed[oid] = [dict(h, rlimit=True)]
     if not res.probe_failed:
         raise Undecided('vacuity guard tripped in unit %s: `ensures false` verified with all prelude axioms in scope' % name)
     res.returncode = rc
